@@ -19,8 +19,8 @@ EXTENDS Timing, TLC, FiniteSets, Json, IOUtils
 TraceLog == ndJsonDeserialize(IOEnv.TRACE_FILE)
 VARIABLE l
 
-RViol == 1 RLines == 2 RTraces == 3 ROk == 10 ROom == 11 RBandRuns == 12 RMem == 13 RZero == 14 ROomExact == 15 ROps == 16 RHighRate == 17 RUndecided == 18
-Regs == {1, 2, 3} \cup 10..18
+RViol == 1 RLines == 2 RTraces == 3 ROk == 10 ROom == 11 RBandRuns == 12 RMem == 13 RZero == 14 ROomExact == 15 ROps == 16 RHighRate == 17 RUndecided == 18 RSusp == 19
+Regs == {1, 2, 3} \cup 10..19
 Bump(r, n) == TLCSet(r, TLCGet(r) + n)
 Flag(e, name, ok, detail) == IF ok THEN TRUE ELSE PrintT(<<"VIOL", e.tid, 0, name, detail>>) /\ Bump(RViol, 1)
 Max(a, b) == IF a > b THEN a ELSE b
@@ -119,13 +119,31 @@ Check(e) ==
                   /\ Bump(RMem, 1)
                   /\ Flag(e, "C05.Mem", MemOK(e, op, k, x - CumBefore(op, k), e.obs.mem[m][2]), <<"tick", j, "op", i, "seg", k, "obs", e.obs.mem[m][2]>>)
 
+(* C10 at any tick rate: one container written out after its first operator.  e.ram is the allocation in micro-GB, e.cert the harness's
+   certificate for floor(ram/20 * tps), decided here exactly; e.ticks the calls of the pool between the Suspend and the end of the write-out.
+   Exactly on a tick boundary the float quotient may come out one tick short (12 GB at 5 ticks/s): both are accepted, as in SuspTicksH. *)
+CheckSusp(e) ==
+  LET T == e.cert
+      certOK == T >= 0 /\ ProdCmp(<<T, 20, 1000000>>, <<e.ram, e.tps>>) <= 0 /\ ProdCmp(<<T + 1, 20, 1000000>>, <<e.ram, e.tps>>) = 1
+      onGrid == ProdCmp(<<T, 20, 1000000>>, <<e.ram, e.tps>>) = 0
+      want == IF T < 1 THEN 1 ELSE T
+  IN
+  /\ Bump(RTraces, 1) /\ Bump(RSusp, 1) /\ Bump(RHighRate, IF e.tps >= 1000 THEN 1 ELSE 0)
+  /\ (IF certOK THEN TRUE ELSE PrintT(<<"PRECOND", e.tid, "suspension certificate rejected">>))
+  /\ Flag(e, "C10.NoRaise", e.exc = "", e.exc)
+  /\ (certOK /\ e.exc = "") =>
+       /\ Flag(e, "C10.Duration", e.ticks = want \/ (onGrid /\ T >= 2 /\ e.ticks = T - 1), <<"ram micro-GB", e.ram, "tps", e.tps, "floor(ram/20*tps)", T, "observed", e.ticks>>)
+       /\ Flag(e, "C10.KeepsAllocationWhileWriting", e.kept, "free cpu/ram moved during the write-out")
+       /\ Flag(e, "C10.FreedExactly", e.freed, "free cpu/ram after the write-out is not the capacity")
+       /\ Flag(e, "C10.WorkIntact", e.ost = <<"completed", "pending">>, e.ost)
+
 Init == l = 1 /\ \A r \in Regs : TLCSet(r, 0)
 Next == /\ l <= Len(TraceLog)
-        /\ Check(TraceLog[l])
+        /\ (IF "kind" \in DOMAIN TraceLog[l] /\ TraceLog[l].kind = "susp" THEN CheckSusp(TraceLog[l]) ELSE Check(TraceLog[l]))
         /\ TLCSet(RLines, l) /\ l' = l + 1
 Spec == Init /\ [][Next]_l
 Consumed == /\ PrintT(<<"COUNT", "containers", TLCGet(RTraces), "operators", TLCGet(ROps), "success", TLCGet(ROk), "oom", TLCGet(ROom),
                         "oom_strict", TLCGet(ROomExact), "runs_with_band", TLCGet(RBandRuns), "oom_undecided_band", TLCGet(RUndecided),
-                        "mem_samples", TLCGet(RMem), "zero_tick_operators", TLCGet(RZero), "rate_ge_1000", TLCGet(RHighRate)>>)
+                        "mem_samples", TLCGet(RMem), "zero_tick_operators", TLCGet(RZero), "rate_ge_1000", TLCGet(RHighRate), "suspensions_timed", TLCGet(RSusp)>>)
             /\ PrintT(<<"SUMMARY", "viol", TLCGet(RViol), "lines", TLCGet(RLines), "traces", TLCGet(RTraces)>>)
 =============================================================================
